@@ -119,6 +119,17 @@ def stepList (s : PState R) (toks : List String) : PState R × String :=
       let spec := Elem.render (s.vs.getD k 0)
       (s, flag ((getRec s.recs k).display Elem.render == spec) s!"s={spec}")
     | none => (s, "bad-ref")
+  | "debug" :: a :: _ =>
+    match s.names.find a with
+    | some k => (s, "dbg ## " ++ debugRec s.w (getRec s.recs k))
+    | none => (s, "bad-ref")
+  | "debugd" :: a :: _ =>
+    match s.names.find a with
+    | some k =>
+      match (getRec s.recs k).derivatives s.w with
+      | .ok d => (s, "dbg ## " ++ debugDerivs d)
+      | .panic kind => (s, s!"panic({kind})")
+    | none => (s, "bad-ref")
   | ["derivs", r] | ["derivs", r, _] =>
     match s.names.find r with
     | some k => (s, stepDerivs s k false)
@@ -138,7 +149,7 @@ def stepList (s : PState R) (toks : List String) : PState R × String :=
 def stepP (s : PState R) (toks : List String) : PState R × String :=
   let (s', ans) := stepList s toks
   match toks with
-  | "cmp" :: _ | "show" :: _ => (s', ans)
+  | "cmp" :: _ | "show" :: _ | "debug" :: _ | "debugd" :: _ => (s', ans)
   | "clone" :: name :: a :: _ =>
     let fast := match s.fast.names.get? a with
       | some k => { s.fast with names := s.fast.names.insert name k }
